@@ -59,7 +59,7 @@ class Scratch:
         return False
 
 
-def prepare_tree(tree: pathlib.Path, harness_files):
+def prepare_tree(tree: pathlib.Path, harness_files, keep=None):
     touched = patch.apply_models(tree, VERIF / 'harness/verif_model.rs')
     if os.environ.get('VERIF_NO_REPR') != '1':
         patch.apply_layout(tree)
@@ -67,7 +67,15 @@ def prepare_tree(tree: pathlib.Path, harness_files):
     lib = tree / 'src/lib.rs'
     lib.write_text(lib.read_text() + '\n#[cfg(kani)]\npub mod verif_common;\n')
     for hf in harness_files:
-        patch.inject_harness(tree, hf)
+        dest = patch.inject_harness(tree, hf)
+        if keep:
+            # development aid: strip `#[kani::proof]` from harnesses not asked for (they stay plain fns)
+            subs = [k for k in keep.split(',') if k]
+            txt = dest.read_text()
+            def strip(m):
+                return m.group(0) if any(k in m.group(2) for k in subs) else '#[allow(dead_code)] pub fn ' + m.group(2)
+            txt = re.sub(r'(#\[kani::proof\](?:\s*#\[[^\]]*\])*\s*pub fn )(\w+)', strip, txt)
+            dest.write_text(txt)
     # cargo feature that switches the thorough-only harnesses on (`#[cfg(feature = "verif_thorough")]`)
     ct = tree / 'Cargo.toml'
     t = ct.read_text()
